@@ -64,6 +64,11 @@ func checkPairs(tag string, m data.Mapping, ks, vs []string) {
 //verif:witness accepted
 func H_C02_LeaseSet2Decode() {
 	offline := nd.Bool()
+	tt := 7
+	if offline {
+		tt = []int{7, 2, 0}[nd.IntRange(0, 2)] // transient key types with 64-, 96- and 40-byte signatures
+	}
+	tp, tsl := sigLens(tt)
 	ks, vs := smallPairs()
 	nk := nd.IntRange(1, 2)
 	nl := nd.IntRange(0, 2)
@@ -71,13 +76,17 @@ func H_C02_LeaseSet2Decode() {
 	ml := mappingLen(ks, vs)
 	total := 391 + 8
 	if offline {
-		total += 6 + 32 + 64
+		total += 6 + tp + 64
 	}
 	total += ml + 1
 	for i := 0; i < nk; i++ {
 		total += 4 + keyLens[i]
 	}
-	total += 1 + 40*nl + 64
+	sigLen := 64
+	if offline {
+		sigLen = tsl // the trailing signature is made by the transient key
+	}
+	total += 1 + 40*nl + sigLen
 	tail := 3
 	in := nd.Bytes(total + tail)
 	pinDest(in, 0, 7, 4, 0)
@@ -91,8 +100,8 @@ func H_C02_LeaseSet2Decode() {
 	p += 8
 	offAt := p
 	if offline {
-		pin(in, p+4, 0, 7)
-		p += 6 + 32 + 64
+		pin(in, p+4, byte(tt>>8), byte(tt))
+		p += 6 + tp + 64
 	}
 	p += putMapping(in, p, ks, vs)
 	pin(in, p, byte(nk))
@@ -127,9 +136,9 @@ func H_C02_LeaseSet2Decode() {
 		o := ls.OfflineSignature()
 		nd.Assert(o != nil, "ls2/offline-present")
 		if o != nil {
-			nd.Assert(uint64(o.Expires()) == be(in[offAt:offAt+4]) && o.TransientSigType() == 7, "ls2/offline-header")
-			nd.Assert(bytes.Equal(o.TransientPublicKey(), in[offAt+6:offAt+38]), "ls2/offline-transient-key")
-			nd.Assert(bytes.Equal(o.Signature(), in[offAt+38:offAt+102]), "ls2/offline-signature")
+			nd.Assert(uint64(o.Expires()) == be(in[offAt:offAt+4]) && int(o.TransientSigType()) == tt, "ls2/offline-header")
+			nd.Assert(bytes.Equal(o.TransientPublicKey(), in[offAt+6:offAt+6+tp]), "ls2/offline-transient-key")
+			nd.Assert(bytes.Equal(o.Signature(), in[offAt+6+tp:offAt+6+tp+64]), "ls2/offline-signature")
 		}
 	} else {
 		nd.Assert(ls.OfflineSignature() == nil, "ls2/offline-absent")
@@ -155,7 +164,7 @@ func H_C02_LeaseSet2Decode() {
 		}
 	}
 	sg := ls.Signature()
-	nd.Assert(sg.Type() == 7 && bytes.Equal(sg.Bytes(), in[sigAt:sigAt+64]), "ls2/signature")
+	nd.Assert(sg.Type() == tt && bytes.Equal(sg.Bytes(), in[sigAt:sigAt+sigLen]), "ls2/signature")
 }
 
 // H_C02_RouterInfoDecode: RouterInfo from the specification layout: identity, published, 0..2 addresses (cost, expiration, transport string, options of 0..1 pairs), peer size 0, options of 0..2 pairs, signature.
@@ -309,6 +318,71 @@ func H_C02_MetaLeaseSetSpec() {
 		nd.Assert(bytes.Equal(h[:], in[402:434]), "meta/entry-hash")
 		nd.Assert(e.Type() == 3 && e.Cost() == in[402+35] && uint64(e.Expires()) == be(in[402+36:402+40]), "meta/entry-fields-per-spec")
 	}
+}
+
+// H_C02_MetaLeaseSetHeader: the MetaLeaseSet HEADER per specification (destination, published, expires, flags, offline signature BEFORE the options mapping) with entries in the implementation's own entry layout (the entry layout itself deviates from the specification: recorded known finding of H_C02_MetaLeaseSetSpec).  Keeps header-level changes visible although the entry-level finding is known.
+//
+//verif:props C02
+//verif:witness accepted
+func H_C02_MetaLeaseSetHeader() {
+	offline := nd.Bool()
+	tt := 7
+	if offline {
+		tt = []int{7, 0}[nd.IntRange(0, 1)]
+	}
+	tp, tsl := sigLens(tt)
+	ks, vs := smallPairs()
+	total := 391 + 8
+	if offline {
+		total += 6 + tp + 64
+	}
+	ml := mappingLen(ks, vs)
+	sigLen := 64
+	if offline {
+		sigLen = tsl
+	}
+	total += ml + 1 + 40 + sigLen
+	in := nd.Bytes(total + 1)
+	pinDest(in, 0, 7, 4, 0)
+	if offline {
+		nd.Assume(in[398]&1 == 1)
+	} else {
+		nd.Assume(in[398]&1 == 0)
+	}
+	p := 399
+	offAt := p
+	if offline {
+		pin(in, p+4, byte(tt>>8), byte(tt))
+		p += 6 + tp + 64
+	}
+	p += putMapping(in, p, ks, vs)
+	pin(in, p, 1)
+	entAt := p + 1
+	pin(in, entAt+32, 3)
+	pin(in, entAt+38, 0, 0)
+	sigAt := entAt + 40
+	m, rem, err := meta_leaseset.ReadMetaLeaseSet(in)
+	nd.Assert(err == nil, "metaheader/spec-header-accepted")
+	if err != nil {
+		return
+	}
+	nd.Cover("accepted")
+	nd.Assert(len(rem) == 1, "metaheader/consumes-exactly-the-encoding")
+	d := m.Destination()
+	db, _ := d.Bytes()
+	nd.Assert(bytes.Equal(db, in[:391]), "metaheader/destination")
+	nd.Assert(uint64(m.Published()) == be(in[391:395]) && uint64(m.Expires()) == be(in[395:397]) && uint64(m.Flags()) == be(in[397:399]), "metaheader/header-fields")
+	if offline {
+		o := m.OfflineSignature()
+		nd.Assert(o != nil, "metaheader/offline-present")
+		if o != nil {
+			nd.Assert(uint64(o.Expires()) == be(in[offAt:offAt+4]) && int(o.TransientSigType()) == tt, "metaheader/offline-header")
+			nd.Assert(bytes.Equal(o.TransientPublicKey(), in[offAt+6:offAt+6+tp]) && bytes.Equal(o.Signature(), in[offAt+6+tp:offAt+6+tp+64]), "metaheader/offline-key-and-signature")
+		}
+	}
+	checkPairs("metaheader", m.Options(), ks, vs)
+	sg := m.Signature()
+	nd.Assert(bytes.Equal(sg.Bytes(), in[sigAt:sigAt+sigLen]), "metaheader/signature")
 }
 
 // H_C02_Encode: values built through the library's constructors serialise to bytes that the reference layout takes apart into the same field values (LeaseSet2, EncryptedLeaseSet, Lease/Lease2, Mapping via C11, key block via C10).
